@@ -110,8 +110,8 @@ def _proxy_expected(case, elems):
 
 
 def _gen_dispatch(rng, i):
-    prefixes = rng.sample(["/api", "/api/v2", "/a", "/ab", "/static", "/", "/x/y", "/api/v2/deep"], rng.choice([1, 2, 3, 5]))
-    path = rng.choice(prefixes + ["/nomatch", "/zzz", "/apix", "/"]) + rng.choice(["", "/", "/rest", "/rest/of/path", "x"])
+    prefixes = rng.sample(["/api", "/api/v2", "/a", "/ab", "/static", "/", "/x/y", "/api/v2/deep", "/static/", "/v1/", "/v1"], rng.choice([1, 2, 3, 5]))
+    path = rng.choice(prefixes + ["/nomatch", "/zzz", "/apix", "/", "/static", "/staticfiles", "/v1"]) + rng.choice(["", "/", "/rest", "/rest/of/path", "x"])
     return {"family": "dispatch", "kind": "dispatch", "prefixes": prefixes, "path": path,
             "scope_type": rng.choice(["http", "http", "websocket"]), "lib": rng.choice(["asyncio", "trio"])}
 
